@@ -47,8 +47,8 @@ PLANS["C02"] = {
             "muldiv: alpha multiply/divide of rows of every length 1..70 and random lengths, in-place and two-image; "
             "non-trivial = at least one convolution pass ran (resize) / any row (muldiv); distinct = distinct descriptor",
     "assumptions": CONV_ASSUME,
-    "quick": [step("rel+rayon", "firv-core", 32000, args=["--pool", "2"], tag="pool2", seed_offset=7000), step("rel", "firv-core", 160000), step("rel", "firv-core", 60000, sub="muldiv")],
-    "thorough": [step("rel+rayon", "firv-core", 640000, args=["--pool", "2"], tag="pool2", seed_offset=7000, timeout=7200), step("rel", "firv-core", 10000000, timeout=7200), step("rel", "firv-core", 4000000, sub="muldiv", timeout=7200),
+    "quick": [step("rel+rayon", "firv-core", 32000, args=["--pool", "4"], tag="pool4", seed_offset=7000), step("rel", "firv-core", 160000), step("rel", "firv-core", 60000, sub="muldiv")],
+    "thorough": [step("rel+rayon", "firv-core", 640000, args=["--pool", "4"], tag="pool4", seed_offset=7000, timeout=7200), step("rel", "firv-core", 10000000, timeout=7200), step("rel", "firv-core", 4000000, sub="muldiv", timeout=7200),
                  step("asan", "firv-core", 400000, timeout=7200)],
 }
 
@@ -149,8 +149,8 @@ PLANS["C18"] = {
             "destination component must lie in the source channel's [min,max] and resize(A) <= resize(B) componentwise (floats: 1 ulp); "
             "non-trivial = kernel of >= 2 taps",
     "assumptions": CONV_ASSUME,
-    "quick": [step("rel+rayon", "firv-core", 32000, args=["--pool", "2"], tag="pool2", seed_offset=7000), step("rel", "firv-core", 120000)],
-    "thorough": [step("rel+rayon", "firv-core", 320000, args=["--pool", "2"], tag="pool2", seed_offset=7000, timeout=7200), step("rel", "firv-core", 15000000, timeout=7200), step("asan", "firv-core", 400000, timeout=7200)],
+    "quick": [step("rel+rayon", "firv-core", 32000, args=["--pool", "4"], tag="pool4", seed_offset=7000), step("rel", "firv-core", 120000)],
+    "thorough": [step("rel+rayon", "firv-core", 320000, args=["--pool", "4"], tag="pool4", seed_offset=7000, timeout=7200), step("rel", "firv-core", 15000000, timeout=7200), step("asan", "firv-core", 400000, timeout=7200)],
 }
 FLOORS["C18"] = {"quick": [
     (">= 10^8 components checked, kernels up to >= 4096 taps", lambda o: o["counters"]["components_checked"] >= 10 ** 8 and o["maxima"]["kernel_len_max"] >= 4096),
